@@ -87,9 +87,12 @@ def canon_value(v, depth=0):
 def snapshot(ctx):
     g = {k: canon_value(v) for k, v in ctx.globals.items() if k != "attrs"}
     return {"locals": canon_value(ctx.locals), "globals": g, "attrs": canon_value(ctx.globals.get("attrs")),
-            "localStack": [canon_value(x) for x in ctx.localStack],
-            "repeatStack": [canon_value(x) for x in ctx.repeatStack],
-            "repeatMap": canon_value(ctx.repeatMap)}
+            "localStack": [canon_value(x) for x in getattr(ctx, "localStack", [])],
+            "repeatStack": [canon_value(x) for x in getattr(ctx, "repeatStack", [])],
+            "repeatMap": canon_value(getattr(ctx, "repeatMap", None)),
+            # whatever other containers the Context keeps (a refactored tree may hold its state elsewhere)
+            "other": {k: canon_value(v) for k, v in sorted(vars(ctx).items())
+                      if isinstance(v, (dict, list, tuple, set)) and k not in ("locals", "globals", "localStack", "repeatStack", "repeatMap")}}
 
 
 # ----------------------------------------------------------------------------
